@@ -17,6 +17,8 @@ def gen_scn(ctx, k, flavour):
     rng = ctx.sub_rng('c05', k)
     nt = rng.choice([2, 2, 3, 4, 8, 16])
     nodes = rng.sample(ADDRS, rng.choice([1, 1, 2, 3]))
+    if rng.random() < 0.3:
+        nodes = list(rng.choice([[(1, 200, 0), (2, 200, 0)], [(1, 1, 144), (1, 2, 144)], [(3, 254, 253), (4, 254, 253)]]))
     normal = (k % 5 == 4)
     fi = rng.choice([0, 0, 1, 3])
     sc = Scn(seed=ctx.seed * 7919 + k, perturb=rng.choice([0, 100, 300, 700]), watchdog=240000)
